@@ -46,6 +46,11 @@ type Options struct {
 	// responses and everything else may still be duplicated)
 	NoDupReadIndex bool
 	Porcupine      bool // cross-check the history with porcupine
+	// MaxInMem > 0: rate limiting (config.MaxInMemLogSize); proposals carry Pad more bytes; the
+	// mini-node does not hand proposals to raft while the peer reports RateLimited (node.go
+	// handleEvents: paused)
+	MaxInMem uint64
+	Pad      int
 }
 
 type flight struct {
@@ -101,6 +106,7 @@ func (s *Sim) newConfig(id uint64, nonVoting, witness bool) config.Config {
 		CompactionOverhead:  s.opt.Overhead,
 		IsNonVoting:         nonVoting,
 		IsWitness:           witness,
+		MaxInMemLogSize:     s.opt.MaxInMem,
 	}
 }
 
@@ -509,6 +515,9 @@ func (s *Sim) actPropose(r *replica) {
 	key := byte(s.rng.Intn(s.opt.Keys))
 	id := s.nextKey
 	cmd := append([]byte{key}, putU64(id)...)
+	if s.opt.Pad > 0 {
+		cmd = append(cmd, make([]byte, s.rng.Intn(s.opt.Pad+1))...)
+	}
 	e := pb.Entry{
 		Type:     pb.ApplicationEntry,
 		Key:      id,
